@@ -1,2 +1,387 @@
-(* C16 - placeholder while the proofs are being built *)
-Require Import Bits.Model.Send.
+(* C16 - the send utility conserves value and produces validly signed transactions (bits.tx.send_tx).
+
+   Model: Model/SendValue.v (binary64 value layer), Model/Send.v (selection, outputs, messages, assembly: byte-exact against
+   the implementation incl. the signatures, by the correspondence run of every check).  Specs: Spec/Sighash.v (legacy
+   signature hash, template-level [unlocks]), Spec/Bip143.v.
+
+   WHAT HOLDS (proved for the model, for all inputs):
+     C16_inputs_reported, C16_inputs_distinct, C16_outputs_shape, C16_conservation     given sat_exact / request_covered
+     C16_send_unsigned_bytes                         the returned bytes of an unsigned send
+     C16_segwit_messages_partial                     message_is_sighash, segwit kinds, sub-domain (version 1, locktime 0, every
+                                                     reported unspent is an input and spends output index = its position)
+     C16_legacy_message_partial                      message_is_sighash, legacy kinds, sub-domain (ONE selected input; hash type
+                                                     ALL, ALL|ANYONECANPAY, or SINGLE(|ANYONECANPAY) with a single output)
+     C16_legacy_signatures_valid_partial             send_valid at the signature level on that legacy sub-domain, from
+                                                     curve_facts (C01): every signature is DER||hashtype and ECDSA-valid for the
+                                                     consensus legacy sighash under its key
+   WHAT DOES NOT HOLD (the known findings; KNOWN_FINDINGS.txt) - for the whole class and with kernel-checked witnesses:
+     C16_segwit_message_actual                       what is signed instead: the pre-image of input number utxo.vout of the
+                                                     transaction with version 1 / locktime 0, for EVERY reported unspent
+     C16_segwit_version_wrong, C16_segwit_locktime_wrong, C16_segwit_vout_index_wrong
+     C16_segwit_version_refuted, C16_segwit_vout_index_refuted, C16_segwit_unselected_refuted
+     C16_legacy_multi_input_refuted, C16_legacy_flag_refuted, C16_legacy_single_with_change_refuted
+
+   FULL-STRENGTH STATEMENTS THAT ARE NOT THEOREMS (kept visible):
+     message_is_sighash :  for every scenario and every selected input j, the byte string handed to bits.sig for input j is the
+                           consensus pre-image of input j (legacy_preimage t j subscript ht ++ nothing / Bip143.preimage t j amount
+                           scriptCode ht) of the transaction t that is returned.           REFUTED by the six theorems above.
+     send_valid         :  forall scenario with keys, forall selected input j,
+                           Spec.Sighash.unlocks sha256 ripemd160 ecdsa strict_der decode_inner t j (sats u_j) (lock_of kind) items_j wit_j
+                           REFUTED outside the sub-domains; on the legacy sub-domain proved at the signature level
+                           (C16_legacy_signatures_valid_partial).  MISSING for the full `unlocks` statement on the sub-domains: the
+                           assembly-layer lemmas (script() push encodings of the items, decode of the multisig redeem script, SEC1
+                           round trip of keys.pub, BIP66 strictness of every signature) and the segwit analogue of sign_keys_sound
+                           over sign_msgs; the correspondence (independent checker harness/c16ref.py: unlocks + OpenSSL ECDSA)
+                           checks exactly these on every scenario of every run.
+     sat_exact          :  forall k, 0 <= k <= 21*10^14 -> sat_of_btc (nearest_double (k / 10^8)) = Ok k.   Not proved (needs an
+                           error analysis of two roundings: |err| <= k * 2^-52 < 1/2); kernel-computed below for the boundary
+                           amounts and 1..4000, and checked by every correspondence run. *)
+From Coq Require Import ZArith List Lia Bool.
+From Coq Require Import Floats.SpecFloat.
+From Coq Require Floats.PrimFloat.
+Require Import Bits.Lib.Result Bits.Lib.Bytes Bits.Lib.CompactSize.
+Require Import Bits.Spec.Bip143 Bits.Spec.Sighash.
+Require Import Bits.Model.Ecmath Bits.Model.Keys Bits.Model.Der Bits.Model.SendValue Bits.Model.Send Bits.Model.SendPrim.
+Require Import Bits.Proofs.Ecmath Bits.Proofs.Ecdsa.
+Require Import Bits.Proofs.SendValue Bits.Proofs.Send Bits.Proofs.SendSign Bits.Proofs.SendRefuted Bits.Proofs.SendValid.
+Require Bits.Model.Tx Bits.Proofs.Tx Bits.Proofs.SmallCurves.
+Import ListNotations.
+Import Coq.Init.Byte.
+Local Open Scope Z_scope.
+
+Module MT := Bits.Model.Tx.
+Module PT := Bits.Proofs.Tx.
+
+(* ------------------------------------------------------------------------------------------------ value / structure *)
+Theorem C16_inputs_reported :
+  forall (p a n : Z) (G : point) (sha256 ripemd160 : bytes -> bytes) (scriptpubkey : bytes -> result bytes)
+         (sats : utxo -> Z) sender recipient change ki frac fee total unspents u,
+    sat_exact sats unspents ->
+    build_unsigned p a n G sha256 ripemd160 scriptpubkey sender recipient change ki frac fee total unspents = Ok u ->
+    let k := length (us_selected u) in
+    map fst (us_selected u) = firstn k unspents /\                               (* a prefix of the reported outputs *)
+    (unspents <> [] -> (1 <= k)%nat) /\
+    Forall (reported_input p a n G sha256 ripemd160 ki) (us_selected u) /\       (* outpoint = (reversed txid, vout) *)
+    us_total u = sumZ (map sats (firstn k unspents)) /\                          (* exact satoshi values *)
+    (forall j, (0 < j < k)%nat -> sumZ (map sats (firstn j unspents)) < us_to_send u) /\   (* stops as soon as covered *)
+    (us_to_send u <= us_total u \/ k = length unspents).
+Proof. exact inputs_reported. Qed.
+Print Assumptions C16_inputs_reported.
+
+Theorem C16_inputs_distinct :
+  forall (p a n : Z) (G : point) (sha256 ripemd160 : bytes -> bytes) (scriptpubkey : bytes -> result bytes)
+         (sats : utxo -> Z) sender recipient change ki frac fee total unspents u,
+    sat_exact sats unspents ->
+    NoDup (map (fun x => (u_txid x, u_vout x)) unspents) ->
+    build_unsigned p a n G sha256 ripemd160 scriptpubkey sender recipient change ki frac fee total unspents = Ok u ->
+    NoDup (map (fun x => (u_txid x, u_vout x)) (map fst (us_selected u))).
+Proof. exact inputs_distinct. Qed.
+Print Assumptions C16_inputs_distinct.
+
+Theorem C16_outputs_shape :
+  forall (p a n : Z) (G : point) (sha256 ripemd160 : bytes -> bytes) (scriptpubkey : bytes -> result bytes)
+         sender recipient change ki frac fee total unspents u,
+    build_unsigned p a n G sha256 ripemd160 scriptpubkey sender recipient change ki frac fee total unspents = Ok u ->
+    exists rs chs,
+      scriptpubkey recipient = Ok rs /\ scriptpubkey (change_target sender change) = Ok chs /\
+      0 <= us_to_send u - fee < 2 ^ 64 /\
+      let change_v := us_total u - us_to_send u in
+      us_txouts u =
+        PT.txout_bytes (MT.mk_txout (us_to_send u - fee) rs) ::
+        (if change_v >=? 1000 then [PT.txout_bytes (MT.mk_txout change_v chs)] else []).
+Proof. exact outputs_shape. Qed.
+Print Assumptions C16_outputs_shape.
+
+Theorem C16_conservation :
+  forall (p a n : Z) (G : point) (sha256 ripemd160 : bytes -> bytes) (scriptpubkey : bytes -> result bytes)
+         (sats : utxo -> Z) sender recipient change ki frac fee total unspents u,
+    sat_exact sats unspents ->
+    build_unsigned p a n G sha256 ripemd160 scriptpubkey sender recipient change ki frac fee total unspents = Ok u ->
+    us_to_send u <= sumZ (map sats unspents) ->                                   (* request_covered *)
+    let inputs := sumZ (map sats (map fst (us_selected u))) in
+    let change_v := inputs - us_to_send u in
+    us_total u = inputs /\
+    sumZ (output_values (us_to_send u) fee (us_total u)) + fee + (if change_v >=? 1000 then 0 else change_v) = inputs.
+Proof. exact conservation. Qed.
+Print Assumptions C16_conservation.
+
+(* request_covered is necessary: without it value would be created *)
+Theorem C16_conservation_needs_cover :
+  forall to_send fee total_sel, total_sel < to_send -> sumZ (output_values to_send fee total_sel) + fee > total_sel.
+Proof. exact conservation_needs_cover. Qed.
+Print Assumptions C16_conservation_needs_cover.
+
+Theorem C16_send_unsigned_bytes :
+  forall (p a n : Z) (G : point) (sha256 ripemd160 : bytes -> bytes) (scriptpubkey : bytes -> result bytes)
+         sender recipient change flag frac fee version locktime total unspents draws raw,
+    send_tx p a n G sha256 ripemd160 scriptpubkey sender recipient change [] flag frac fee version locktime total unspents draws
+      = Ok raw ->
+    exists u, build_unsigned p a n G sha256 ripemd160 scriptpubkey sender recipient change None frac fee total unspents = Ok u /\
+              raw = PT.tx_bytes false version (map snd (us_selected u)) (us_txouts u) [] locktime.
+Proof. exact send_unsigned_bytes. Qed.
+Print Assumptions C16_send_unsigned_bytes.
+
+(* ------------------------------------------------------------------------------------------------ message layer *)
+Theorem C16_segwit_messages_partial :
+  forall (sha256 : bytes -> bytes) (sats : utxo -> Z) (t : tx) (script : bytes) (f : Z) (unspents : list utxo) (msgs : list bytes),
+    wf_tx t -> tx_version t = 1 -> tx_locktime t = 0 -> standard_flag f ->
+    Z.of_nat (length script) < 2 ^ 64 ->
+    length unspents = length (tx_ins t) ->
+    (forall j x, nth_error unspents j = Some x ->
+                 u_vout x = Z.of_nat j /\ sat_of_btc (u_amount x) = Ok (sats x) /\ 0 <= sats x < 2 ^ 64) ->
+    segwit_msgs sha256 (map ser_txin (tx_ins t)) (map ser_txout (tx_outs t)) (ser_script script) (Some f) unspents = Ok msgs ->
+    forall j x, nth_error unspents j = Some x ->
+      exists m, nth_error msgs j = Some m /\ preimage sha256 t j (sats x) script f = Some m.
+Proof. exact segwit_messages_partial. Qed.
+Print Assumptions C16_segwit_messages_partial.
+
+(* what IS signed, in general *)
+Theorem C16_segwit_message_actual :
+  forall (sha256 : bytes -> bytes) (sats : utxo -> Z) (t : tx) (script : bytes) (f : Z) (unspents : list utxo) (msgs : list bytes),
+    wf_tx t -> tx_version t = 1 -> tx_locktime t = 0 -> standard_flag f ->
+    Z.of_nat (length script) < 2 ^ 64 ->
+    (forall x, In x unspents ->
+               0 <= u_vout x < Z.of_nat (length (tx_ins t)) /\ sat_of_btc (u_amount x) = Ok (sats x) /\ 0 <= sats x < 2 ^ 64) ->
+    segwit_msgs sha256 (map ser_txin (tx_ins t)) (map ser_txout (tx_outs t)) (ser_script script) (Some f) unspents = Ok msgs ->
+    forall i x, nth_error unspents i = Some x ->
+      exists m, nth_error msgs i = Some m /\ preimage sha256 t (Z.to_nat (u_vout x)) (sats x) script f = Some m.
+Proof. exact segwit_message_actual. Qed.
+Print Assumptions C16_segwit_message_actual.
+
+(* the one-byte p2wsh scriptCode length is the CompactSize prefix below 253 bytes (every m-of-n <= 3 multisig: <= 201 bytes) *)
+Theorem C16_one_byte_scriptcode :
+  forall redeem : bytes, Z.of_nat (length redeem) < 253 ->
+    to_be_chk 1 (Z.of_nat (length redeem)) = Ok (cs_enc (Z.of_nat (length redeem))).
+Proof. exact one_byte_scriptcode. Qed.
+Print Assumptions C16_one_byte_scriptcode.
+
+Theorem C16_legacy_preimage_one_input :
+  forall (v lt : Z) (i0 : tx_input) (outs : list tx_output) (ht : Z),
+    ht = 1 \/ ht = 0x81 \/ ((ht = 3 \/ ht = 0x83) /\ length outs = 1%nat) ->
+    let t := mk_tx v [i0] outs lt in
+    legacy_preimage t 0 (ti_script i0) ht = Some (ser_legacy t ++ u32le ht).
+Proof. exact legacy_preimage_one_input. Qed.
+Print Assumptions C16_legacy_preimage_one_input.
+
+Theorem C16_legacy_message_partial :
+  forall (p a n : Z) (G : point) (sha256 ripemd160 : bytes -> bytes) (scriptpubkey : bytes -> result bytes)
+         sender recipient change k frac fee version locktime total unspents u x txi tx_ ht,
+    build_unsigned p a n G sha256 ripemd160 scriptpubkey sender recipient change (Some k) frac fee total unspents = Ok u ->
+    us_selected u = [(x, txi)] ->
+    is_kind (ki_type k) [k_p2pk; k_p2pkh; k_multisig; k_p2sh] = true ->
+    MT.tx_raw (map snd (us_selected u)) (us_txouts u) version locktime [] = Ok tx_ ->
+    ht = 1 \/ ht = 0x81 \/ ((ht = 3 \/ ht = 0x83) /\ length (us_txouts u) = 1%nat) ->
+    exists sc t,
+      sc = (if is_kind (ki_type k) [k_p2pk; k_p2pkh; k_multisig] then u_spk x else ki_redeem k) /\
+      tx_ins t = [Bits.Spec.Bip143.mk_txin (rev (u_txid x)) (u_vout x) sc 0xffffffff] /\
+      tx_version t = version /\ tx_locktime t = locktime /\
+      ser_legacy t = tx_ /\
+      legacy_preimage t 0 sc ht = Some (tx_ ++ to_le 4 ht).
+Proof. exact legacy_message_partial. Qed.
+Print Assumptions C16_legacy_message_partial.
+
+(* ------------------------------------------------------------------------------------------------ send_valid, partial *)
+Theorem C16_legacy_signatures_valid_partial :
+  forall (p a b n : Z) (G : point) (sha256 ripemd160 : bytes -> bytes) (scriptpubkey : bytes -> result bytes),
+    curve_facts p a b n G ->
+    forall sender recipient change k frac fee version locktime total unspents u x txi tx_ ht draws sigs rest,
+    build_unsigned p a n G sha256 ripemd160 scriptpubkey sender recipient change (Some k) frac fee total unspents = Ok u ->
+    us_selected u = [(x, txi)] ->
+    is_kind (ki_type k) [k_p2pk; k_p2pkh; k_multisig; k_p2sh] = true ->
+    MT.tx_raw (map snd (us_selected u)) (us_txouts u) version locktime [] = Ok tx_ ->
+    ht = 1 \/ ht = 0x81 \/ ((ht = 3 \/ ht = 0x83) /\ length (us_txouts u) = 1%nat) ->
+    sign_keys p a n G sha256 draws (ki_keys k) tx_ (Some ht) false = Ok (sigs, rest) ->
+    exists sc t pre,
+      sc = (if is_kind (ki_type k) [k_p2pk; k_p2pkh; k_multisig] then u_spk x else ki_redeem k) /\
+      ser_legacy t = tx_ /\ tx_version t = version /\ tx_locktime t = locktime /\
+      legacy_preimage t 0 sc ht = Some pre /\
+      legacy_sighash sha256 t 0 sc ht = Some (h256 sha256 pre) /\
+      Forall2 (fun key sg => exists d r s der,
+                 privkey_int n key = Ok d /\ der_encode_sig r s = Ok der /\ sg = der ++ [z2b ht] /\
+                 verify p a b n G r s (smul p a d G) (of_be (h256 sha256 pre)) = Ok true)
+              (ki_keys k) sigs.
+Proof. exact legacy_signatures_valid_partial. Qed.
+Print Assumptions C16_legacy_signatures_valid_partial.
+
+(* the hypothesis curve_facts is satisfiable (C01: proved by computation for y^2 = x^3 + 7 over F_43, order 31) *)
+Example C16_curve_facts_nonvacuous : curve_facts 43 0 7 31 Bits.Proofs.SmallCurves.G43.
+Proof. exact Bits.Proofs.SmallCurves.facts_43. Qed.
+Print Assumptions C16_curve_facts_nonvacuous.
+
+(* ------------------------------------------------------------------------------------------------ the known findings *)
+(* segwit kinds, for EVERY transaction t returned (structured form), script code, flag and reported unspents *)
+Theorem C16_segwit_version_wrong :
+  forall (sha256 : bytes -> bytes) (sats : utxo -> Z) (t : tx) (script : bytes) (f : Z) (unspents : list utxo) (msgs : list bytes),
+    wf_tx t -> standard_flag f -> Z.of_nat (length script) < 2 ^ 64 ->
+    (forall x, In x unspents ->
+               0 <= u_vout x < Z.of_nat (length (tx_ins t)) /\ sat_of_btc (u_amount x) = Ok (sats x) /\ 0 <= sats x < 2 ^ 64) ->
+    segwit_msgs sha256 (map ser_txin (tx_ins t)) (map ser_txout (tx_outs t)) (ser_script script) (Some f) unspents = Ok msgs ->
+    forall i x m,
+      u32le (tx_version t) <> u32le 1 ->
+      nth_error unspents i = Some x -> nth_error msgs i = Some m ->
+      forall j amount pre, preimage sha256 t j amount script f = Some pre -> m <> pre.
+Proof. exact segwit_version_wrong. Qed.
+Print Assumptions C16_segwit_version_wrong.
+
+Theorem C16_segwit_locktime_wrong :
+  forall (sha256 : bytes -> bytes) (sats : utxo -> Z) (t : tx) (script : bytes) (f : Z) (unspents : list utxo) (msgs : list bytes),
+    wf_tx t -> standard_flag f -> Z.of_nat (length script) < 2 ^ 64 ->
+    (forall x, In x unspents ->
+               0 <= u_vout x < Z.of_nat (length (tx_ins t)) /\ sat_of_btc (u_amount x) = Ok (sats x) /\ 0 <= sats x < 2 ^ 64) ->
+    segwit_msgs sha256 (map ser_txin (tx_ins t)) (map ser_txout (tx_outs t)) (ser_script script) (Some f) unspents = Ok msgs ->
+    forall i x m,
+      tx_version t = 1 -> u32le (tx_locktime t) <> u32le 0 ->
+      nth_error unspents i = Some x -> nth_error msgs i = Some m ->
+      forall pre, preimage sha256 t (Z.to_nat (u_vout x)) (sats x) script f = Some pre -> m <> pre.
+Proof. exact segwit_locktime_wrong. Qed.
+Print Assumptions C16_segwit_locktime_wrong.
+
+Theorem C16_segwit_vout_index_wrong :
+  forall (sha256 : bytes -> bytes) (sats : utxo -> Z) (t : tx) (script : bytes) (f : Z) (unspents : list utxo) (msgs : list bytes),
+    wf_tx t -> standard_flag f -> Z.of_nat (length script) < 2 ^ 64 ->
+    (forall x, In x unspents ->
+               0 <= u_vout x < Z.of_nat (length (tx_ins t)) /\ sat_of_btc (u_amount x) = Ok (sats x) /\ 0 <= sats x < 2 ^ 64) ->
+    segwit_msgs sha256 (map ser_txin (tx_ins t)) (map ser_txout (tx_outs t)) (ser_script script) (Some f) unspents = Ok msgs ->
+    forall i x m a b,
+      nth_error unspents i = Some x -> nth_error msgs i = Some m ->
+      nth_error (tx_ins t) i = Some a -> nth_error (tx_ins t) (Z.to_nat (u_vout x)) = Some b ->
+      ser_outpoint a <> ser_outpoint b ->
+      forall amount pre, preimage sha256 (with_defaults t) i amount script f = Some pre -> m <> pre.
+Proof. exact segwit_vout_index_wrong. Qed.
+Print Assumptions C16_segwit_vout_index_wrong.
+
+(* witnesses, by kernel computation on the faithful model; for every curve and every hash function *)
+Theorem C16_legacy_multi_input_refuted :
+  forall (p a n : Z) (G : point) (sha256 ripemd160 : bytes -> bytes),
+    exists u tx_ pre,
+      build_unsigned p a n G sha256 ripemd160 spk_of [] [] None (Some ki_p2pk) (sf_of_me 1 0) 1000 (sf_of_me 2 0)
+                     [ux x11 0; ux x22 1] = Ok u /\
+      length (us_selected u) = 2%nat /\
+      Bits.Model.Tx.tx_raw (map snd (us_selected u)) (us_txouts u) 1 0 [] = Ok tx_ /\
+      let t := mk_tx 1 [sin x11 0 spk0; sin x22 1 spk0] [sout 199999000] 0 in
+      ser_legacy t = tx_ /\ legacy_preimage t 0 spk0 1 = Some pre /\ pre <> tx_ ++ to_le 4 1.
+Proof. exact legacy_multi_input_refuted. Qed.
+Print Assumptions C16_legacy_multi_input_refuted.
+
+Theorem C16_legacy_flag_refuted :
+  forall (p a n : Z) (G : point) (sha256 ripemd160 : bytes -> bytes),
+    exists u tx_ pre,
+      build_unsigned p a n G sha256 ripemd160 spk_of [] [] None (Some ki_p2pk) (sf_of_me 1 0) 1000 (sf_of_me 1 0) [ux x11 0] = Ok u /\
+      length (us_selected u) = 1%nat /\
+      Bits.Model.Tx.tx_raw (map snd (us_selected u)) (us_txouts u) 1 0 [] = Ok tx_ /\
+      let t := mk_tx 1 [sin x11 0 spk0] [sout 99999000] 0 in
+      ser_legacy t = tx_ /\ legacy_preimage t 0 spk0 2 = Some pre /\ pre <> tx_ ++ to_le 4 2.
+Proof. exact legacy_flag_refuted. Qed.
+Print Assumptions C16_legacy_flag_refuted.
+
+Theorem C16_legacy_single_with_change_refuted :
+  forall (p a n : Z) (G : point) (sha256 ripemd160 : bytes -> bytes),
+    exists u tx_ pre,
+      build_unsigned p a n G sha256 ripemd160 spk_of [] [] None (Some ki_p2pk) (sf_of_me 1 (-1)) 1000 (sf_of_me 1 0) [ux x11 0] = Ok u /\
+      length (us_txouts u) = 2%nat /\
+      Bits.Model.Tx.tx_raw (map snd (us_selected u)) (us_txouts u) 1 0 [] = Ok tx_ /\
+      let t := mk_tx 1 [sin x11 0 spk0] [sout 49999000; sout 50000000] 0 in
+      ser_legacy t = tx_ /\ legacy_preimage t 0 spk0 3 = Some pre /\ pre <> tx_ ++ to_le 4 3.
+Proof. exact legacy_single_with_change_refuted. Qed.
+Print Assumptions C16_legacy_single_with_change_refuted.
+
+Theorem C16_segwit_version_refuted :
+  forall (p a n : Z) (G : point) (sha256 ripemd160 : bytes -> bytes),
+    exists u sc m pre,
+      build_unsigned p a n G sha256 ripemd160 spk_of [] [] None (Some ki_p2wsh) (sf_of_me 1 0) 1000 (sf_of_me 1 0) [ux x11 0] = Ok u /\
+      scriptcode_of p a n G sha256 ripemd160 ki_p2wsh = Ok sc /\
+      segwit_msgs sha256 (txins_of u) (us_txouts u) sc (Some 1) [ux x11 0] = Ok [m] /\
+      let t := mk_tx 2 [sin x11 0 []] [sout 99999000] 0 in
+      preimage sha256 t 0 100000000 spk0 1 = Some pre /\ m <> pre.
+Proof. exact segwit_version_refuted. Qed.
+Print Assumptions C16_segwit_version_refuted.
+
+Theorem C16_segwit_vout_index_refuted :
+  forall (p a n : Z) (G : point) (sha256 ripemd160 : bytes -> bytes),
+    exists u sc,
+      build_unsigned p a n G sha256 ripemd160 spk_of [] [] None (Some ki_p2wsh) (sf_of_me 1 0) 1000 (sf_of_me 1 0) [ux x11 1] = Ok u /\
+      scriptcode_of p a n G sha256 ripemd160 ki_p2wsh = Ok sc /\
+      segwit_msgs sha256 (txins_of u) (us_txouts u) sc (Some 1) [ux x11 1] = Err IndexE /\
+      let t := mk_tx 1 [sin x11 1 []] [sout 99999000] 0 in
+      exists pre, preimage sha256 t 0 100000000 spk0 1 = Some pre.
+Proof. exact segwit_vout_index_refuted. Qed.
+Print Assumptions C16_segwit_vout_index_refuted.
+
+Theorem C16_segwit_unselected_refuted :
+  forall (p a n : Z) (G : point) (sha256 ripemd160 : bytes -> bytes),
+    exists u sc,
+      build_unsigned p a n G sha256 ripemd160 spk_of [] [] None (Some ki_p2wsh) (sf_of_me 1 (-2)) 1000 (sf_of_me 2 0)
+                     [ux x11 0; ux x22 1] = Ok u /\
+      length (us_selected u) = 1%nat /\
+      scriptcode_of p a n G sha256 ripemd160 ki_p2wsh = Ok sc /\
+      segwit_msgs sha256 (txins_of u) (us_txouts u) sc (Some 1) [ux x11 0; ux x22 1] = Err IndexE /\
+      exists m, segwit_msgs sha256 (txins_of u) (us_txouts u) sc (Some 1) [ux x11 0] = Ok [m].
+Proof. exact segwit_unselected_refuted. Qed.
+Print Assumptions C16_segwit_unselected_refuted.
+
+(* ------------------------------------------------------------------------------------------------ sat_exact: instances *)
+(* the binary64 a JSON parser produces for the 8-decimal string of k satoshis: the correctly rounded quotient k / 10^8 *)
+Definition btc_of_sat (k : Z) : spec_float := SFdiv prec emax (sf_of_me k 0) f1e8.
+Definition exact_at (k : Z) : bool := match sat_of_btc (btc_of_sat k) with Ok v => v =? k | Err _ => false end.
+Definition exact_at_prim (k : Z) : bool :=
+  match sat_of_btc_prim (PrimFloat.div (Bits.Model.SendPrim.prim_of_me k 0) Bits.Model.SendPrim.p1e8) with Ok v => v =? k | Err _ => false end.
+Definition boundary_sats : list Z :=
+  [0; 1; 2; 999; 1000; 1001; 29000000; 57000000; 58000000; 113000000; 115000000; 33333333; 99999999; 100000000; 100000001;
+   4999999999; 5000000000; 123456789012; 999999999999999; 2099999997690000; 2099999999999999; 2100000000000000].
+
+(* 0.29 BTC: the value the truncating conversion got wrong (28999999) *)
+Example C16_sat_029 : sat_of_btc (sf_of_me 0x128f5c28f5c28f (-54)) = Ok 29000000 /\ btc_of_sat 29000000 = sf_of_me 0x128f5c28f5c28f (-54).
+Proof. vm_compute. split; reflexivity. Qed.
+Print Assumptions C16_sat_029.
+
+Example C16_sat_exact_boundary : forallb exact_at boundary_sats = true.
+Proof. vm_compute. reflexivity. Qed.
+Print Assumptions C16_sat_exact_boundary.
+
+Example C16_sat_exact_small : forallb exact_at (map Z.of_nat (seq 0 4001)) = true.
+Proof. vm_compute. reflexivity. Qed.
+Print Assumptions C16_sat_exact_small.
+
+(* the same through the kernel's primitive floats: SpecFloat and PrimFloat agree on these inputs (multiplication AND division) *)
+Example C16_sat_exact_boundary_primfloat :
+  forallb exact_at_prim boundary_sats = true /\
+  forallb (fun k => match sat_of_btc (btc_of_sat k), sat_of_btc_prim (PrimFloat.div (Bits.Model.SendPrim.prim_of_me k 0) Bits.Model.SendPrim.p1e8) with
+                    | Ok x, Ok y => x =? y | _, _ => false end) boundary_sats = true.
+Proof. vm_compute. split; reflexivity. Qed.
+Print Assumptions C16_sat_exact_boundary_primfloat.
+
+(* int(send_fraction * total): 0.7 * 10 rounds UP to 7.0 (the exact product is 6.99999999999999955...) *)
+Example C16_amount_to_send_rounding :
+  amount_to_send (sf_of_me 0x16666666666666 (-53)) 10 = Ok 7 /\
+  amount_to_send_prim (Bits.Model.SendPrim.prim_of_me 0x16666666666666 (-53)) 10 = Ok 7 /\
+  amount_to_send (sf_of_me 1 (-1)) 300000000 = Ok 150000000.
+Proof. vm_compute. repeat split; reflexivity. Qed.
+Print Assumptions C16_amount_to_send_rounding.
+
+(* a whole value-layer run: 3 utxos of 1, 2, 3 BTC, half of the total requested, fee 500: two inputs, change 0 -> no change output;
+   and with 0.4: two inputs, change 0.6 BTC *)
+Example C16_send_values_example :
+  send_values (sf_of_me 1 (-1)) (sf_of_me 6 0) [sf_of_me 1 0; sf_of_me 2 0; sf_of_me 3 0] 500 = Ok (2, [299999500]) /\
+  send_values (btc_of_sat 40000000) (sf_of_me 6 0) [sf_of_me 1 0; sf_of_me 2 0; sf_of_me 3 0] 500 = Ok (2, [239999500; 60000000]) /\
+  send_values_prim (Bits.Model.SendPrim.prim_of_me 1 (-1)) (Bits.Model.SendPrim.prim_of_me 6 0)
+                   [Bits.Model.SendPrim.prim_of_me 1 0; Bits.Model.SendPrim.prim_of_me 2 0; Bits.Model.SendPrim.prim_of_me 3 0] 500
+    = Ok (2, [299999500]).
+Proof. vm_compute. repeat split; reflexivity. Qed.
+Print Assumptions C16_send_values_example.
+
+(* hypotheses of the structure theorems are satisfiable: a concrete scenario through build_unsigned (sat_exact and
+   request_covered hold, two of three reported outputs are selected) *)
+Example C16_build_example :
+  forall (p a n : Z) (G : point) (sha256 ripemd160 : bytes -> bytes),
+    exists u,
+      build_unsigned p a n G sha256 ripemd160 spk_of [] [] None None (sf_of_me 1 (-1)) 1000 (sf_of_me 3 0)
+                     [ux x11 0; ux x22 5; ux x33 2] = Ok u /\
+      us_to_send u = 150000000 /\ us_total u = 200000000 /\ length (us_selected u) = 2%nat /\ length (us_txouts u) = 2%nat /\
+      sat_exact (fun _ => 100000000) [ux x11 0; ux x22 5; ux x33 2] /\
+      us_to_send u <= sumZ (map (fun _ => 100000000) [ux x11 0; ux x22 5; ux x33 2]).
+Proof.
+  intros. eexists. split; [vm_compute; reflexivity|]. repeat split; try reflexivity.
+  - intros x [<-|[<-|[<-|[]]]]; vm_compute; reflexivity.
+  - vm_compute. discriminate.
+Qed.
+Print Assumptions C16_build_example.
